@@ -464,11 +464,11 @@ _ROUND10 = {
 _ROUND11 = {
     "C10": " Stage anonymous (TestManyAnonymousChildren): 250000 (thorough: 600000) anonymous children of one parent through WithLevel / New() / WithJSONMode / WithUTCMode: every call hands out a new child although the short random names repeat (about 2.1e9 possible names: some 15 repetitions are expected), and Each visits them all.",
     "C01": " In half of the cases (and in extra cells of the exhaustive matrix) the logger answers Enabled questions and prints records BEFORE each change of the debug mode: what it remembers of its answers is then out of date.",
-    "C03": " A history may register one more level for the error device in the middle (step register), sandwiched by probes at that level on a logger that has logged already.",
+    "C03": " Pool member 0 is handed over as a writer of a value type (a small struct by value) in every third case. A history may register one more level for the error device in the middle (step register), sandwiched by probes at that level on a logger that has logged already.",
     "C04": " Before the record under test: the same record printed in the other formats (1 case of 4), a record whose loose pairs repeat a key (1 of 6); a logger with own attributes prints the record twice and the second one is judged.",
     "C05": " Before the record under test: the same record printed in the other formats (1 case of 4), a record whose loose pairs repeat a key (1 of 6); a logger with own attributes prints the record twice and the second one is judged.",
-    "C09": " Probes may be ordinary calls with loose key/value pairs (year-only time layout) instead of handed-through records; histories contain records whose loose pairs repeat a key.",
-    "C13": " Between the faulty phase and the suffix a destination may be withdrawn with the matching Remove call (it must get nothing afterwards) and the logger's level may change (the suffix is judged under the new one).",
+    "C09": " The two-mappings scenario also runs with a table of exactly the two mappings. Probes may be ordinary calls with loose key/value pairs (year-only time layout) instead of handed-through records; histories contain records whose loose pairs repeat a key.",
+    "C13": " Every level-settable destination must be told the severity immediately before each Write - the record's own, Warn for the diagnostic. Between the faulty phase and the suffix a destination may be withdrawn with the matching Remove call (it must get nothing afterwards) and the logger's level may change (the suffix is judged under the new one).",
     "C14": " With a late SetSkip, records may go through the logger, the handler, a derived handler and the bridge BEFORE the skip count changes.",
     "C15": " The process-wide debug mode may change between two records of one handler (is.SetDebugMode, or another logger's SetLevel(Debug)).",
     "C16": " In a third of the cases the logger prints records in all three formats before its zone mode and layout are set in place.",
